@@ -317,6 +317,10 @@ func c04Parsed(x *mc.Exec) {
 		}
 		raw += s
 	}
+	// inclusion paths in the URL say what the client wants side-loaded; whether a relationship
+	// carries data is the document's (RelData) decision alone
+	inc := []string{"", "&include=one", "&include=ones", "&include=ones,one.r"}[x.Choose(4, "include")]
+	raw += inc
 	x.Render(raw)
 	url, err := j.NewURLFromRaw(schema, raw)
 	if err != nil {
@@ -334,7 +338,15 @@ func c04Parsed(x *mc.Exec) {
 	r := c04T.NewRes(soft)
 	r.Set("id", "1")
 	r.Set("one", "u1")
-	doc := &j.Document{Data: r, RelData: map[string][]string{"t": {"one"}}}
+	asked := [][]string{{"one"}, {}, {"ones"}}[x.Choose(3, "relationship data asked for")]
+	doc := &j.Document{Data: r, RelData: map[string][]string{"t": asked}}
+	if inc != "" {
+		ir := c04U.NewRes(soft)
+		ir.Set("id", "u1")
+		doc.Included = []j.Resource{ir}
+	}
+	raw += fmt.Sprintf(" RelData[t]=%v", asked)
+	x.Render(raw)
 	var out []byte
 	p := Try(func() { out, err = j.MarshalDocument(doc, url) })
 	x.R.Add("transitions", 1)
@@ -355,6 +367,27 @@ func c04Parsed(x *mc.Exec) {
 	ws := SortedKeys(want)
 	if !reflect.DeepEqual(got, ws) {
 		x.Fail("C04:parsed:fields", "URL %s: resource exposes %v, selection is %v", raw, got, ws)
+	}
+	rels, _ := o["relationships"].(map[string]any)
+	for _, n := range SortedKeys(rels) {
+		ro, _ := rels[n].(map[string]any)
+		_, has := ro["data"]
+		want := len(asked) == 1 && asked[0] == n
+		if has != want {
+			x.Fail("C04:parsed:data-member", "URL %s: relationship %q data member present=%v, the document asks for data of %v", raw, n, has, asked)
+		}
+	}
+	for _, io := range resourceObjects(top) {
+		if io["type"] != "u" {
+			continue
+		}
+		irels, _ := io["relationships"].(map[string]any)
+		for _, n := range SortedKeys(irels) {
+			ro, _ := irels[n].(map[string]any)
+			if _, has := ro["data"]; has {
+				x.Fail("C04:parsed:data-member", "URL %s: included u resource: relationship %q carries data although RelData has no entry for u", raw, n)
+			}
+		}
 	}
 }
 
@@ -428,7 +461,7 @@ func c04Wide(x *mc.Exec) {
 func init() {
 	Register(&Prop{
 		ID: "C04",
-		Rule: "Engine A, all choices Full, complete product: {soft,struct} x 22 selections for type t (all 16 subsets of its 4 fields, unknown name, 'id', duplicates, no entry, nil map, unknown names differing from real ones by case only) x 6 relationship-data requests (4 subsets, unknown name, entry for the other type only) x 4 positions (single primary, Resources member, SoftCollection/WrapperCollection member, included) x 3 selections x 2 data requests for the second type (which shares field names with t); plus every non-empty subset obtained through the URL parser in both orders, each then marshaled as parsed and after Params.Fields[t] was replaced by every subset. plus a 12-field type with selections of every size 0..12 in sorted, reversed and interleaved order x 3 data requests. Oracle: set arithmetic on the decoded JSON of every resource object. Every case is a distinct (selection, request, position) combination",
+		Rule: "Engine A, all choices Full, complete product: {soft,struct} x 22 selections for type t (all 16 subsets of its 4 fields, unknown name, 'id', duplicates, no entry, nil map, unknown names differing from real ones by case only) x 6 relationship-data requests (4 subsets, unknown name, entry for the other type only) x 4 positions (single primary, Resources member, SoftCollection/WrapperCollection member, included) x 3 selections x 2 data requests for the second type (which shares field names with t); plus every non-empty subset obtained through the URL parser in both orders, each then marshaled as parsed and after Params.Fields[t] was replaced by every subset, x 4 include parameters x 3 relationship-data requests (data members follow the document's request, not the URL's inclusion paths). plus a 12-field type with selections of every size 0..12 in sorted, reversed and interleaved order x 3 data requests. Oracle: set arithmetic on the decoded JSON of every resource object. Every case is a distinct (selection, request, position) combination",
 		Harnesses: []Harness{
 			{Name: "C04/doc", Body: c04Body},
 			{Name: "C04/parsed", Body: c04Parsed},
